@@ -80,16 +80,37 @@ let run_maps (parts : string list) : (string * jv) list =
 let raw_opts : (string * string) list ref = ref []
 let raw_methods : raw_method list ref = ref []
 let raw_has_methods = ref false
+let raw_valid = ref false
 
-let fresh () = raw_opts := []; raw_methods := []; raw_has_methods := false; maps := []; queries := []; {
+let fresh () = raw_opts := []; raw_methods := []; raw_has_methods := false; raw_valid := false; maps := []; queries := []; {
   id = ""; prefix = ""; methods = []; litcallers = []; verb = VInformation; literals = true;
   chain = false; comments = false; prestmts = []; file = ""; src = "";
   ast_in = None; ast_out = None; ast_reparsed = None }
 
-let config_of (c : case) : config = {
+let raw_config () : raw_config =
+  let ob k = match List.assoc_opt k !raw_opts with Some "1" -> Some true | Some "0" -> Some false | _ -> None in
+  let os k = match List.assoc_opt k !raw_opts with Some v -> Some (explode v) | None -> None in
+  { r_chain = ob "chain"; r_comments = ob "comments"; r_prefix = os "prefix";
+    r_methods_opt = (if !raw_has_methods then Some (List.rev !raw_methods) else None);
+    r_verbosity = os "verbosity"; r_literals = ob "literals" }
+
+(* the configuration the implementation resolved (METHOD / VERB / FLAGS lines) ... *)
+let impl_config_of (c : case) : config = {
   c_prefix = explode c.prefix; c_methods = List.rev c.methods;
   c_lit_callers = List.rev c.litcallers; c_verbosity = c.verb; c_literals = c.literals;
   c_chain = c.chain; c_comments = c.comments; c_prefix_stmts = c.prestmts }
+
+(* ... and the one the model and the specifications work with: resolved by coq/ToConfig.v from what the caller gave, whenever
+   that is a well-typed configuration object (the prefix drawn at random and the parsed prologue stay the implementation's) *)
+let config_of (c : case) : config =
+  let ic = impl_config_of c in
+  if not !raw_valid then ic
+  else
+    let raw = raw_config () in
+    let cq = to_config (fun _ -> O) raw in
+    { ic with c_methods = cq.c_methods; c_lit_callers = cq.c_lit_callers; c_verbosity = cq.c_verbosity;
+              c_literals = cq.c_literals; c_chain = cq.c_chain; c_comments = cq.c_comments;
+              c_prefix = (match raw.r_prefix with Some p -> p | None -> ic.c_prefix) }
 
 let status_str = function Modified -> "modified" | NotModified -> "notmodified" | Cancelled -> "cancelled"
 
@@ -177,6 +198,7 @@ let () =
        | [ "QUERY"; l; c ] -> queries := (int_of_string l, int_of_string c) :: !queries
        | [ "RAWOPT"; k; v ] -> raw_opts := (k, unescape v) :: !raw_opts
        | [ "RAWMETHODS" ] -> raw_has_methods := true
+       | [ "RAWVALID" ] -> raw_valid := true
        | [ "RAWMETHOD"; src; dst; op; awc ] ->
            let ob = function "1" -> Some true | "0" -> Some false | _ -> None in
            raw_methods := { rm_src = explode (unescape src);
@@ -189,11 +211,7 @@ let () =
               if List.mem "model" parts then res := !res @ run_model parts !c;
               if !maps <> [] then res := !res @ run_maps parts;
               if List.mem "toconfig" parts then begin
-                let ob k = match List.assoc_opt k !raw_opts with Some "1" -> Some true | Some "0" -> Some false | _ -> None in
-                let os k = match List.assoc_opt k !raw_opts with Some v -> Some (explode v) | None -> None in
-                let raw = { r_chain = ob "chain"; r_comments = ob "comments"; r_prefix = os "prefix";
-                            r_methods_opt = (if !raw_has_methods then Some (List.rev !raw_methods) else None);
-                            r_verbosity = os "verbosity"; r_literals = ob "literals" } in
+                let raw = raw_config () in
                 let cfg = to_config (fun i -> O) raw in
                 let vs = function VOff -> "OFF" | VMandatory -> "MANDATORY" | VInformation -> "INFORMATION" | VDebug -> "DEBUG" in
                 res := !res @ [
